@@ -1,4 +1,4 @@
-//go:build verif
+//go:build verif && (c04 || allprops)
 
 package main
 
@@ -10,44 +10,6 @@ import (
 //   corr  : Lean `ranking` on the same (id, value) list must print what Go returned
 //   spec  : Lean `check-c04` (exact rationals) on Go's output
 //   oracle: permutation metamorphic on the real code (value, links as set, position class)
-
-func rankingInput(ids []string, vals []float64) model.AlternativeResults {
-	res := make(model.AlternativeResults, len(ids))
-	for i := range ids {
-		a := model.AlternativeWithCriteria{Id: ids[i], Criteria: model.Weights{}}
-		res[i] = *model.ValueAlternativeResult(&a, vals[i])
-	}
-	return res
-}
-
-func rankingSX(rk *model.AlternativesRanking) SX {
-	out := make(sxList, len(*rk))
-	for i, e := range *rk {
-		out[i] = L(Str(e.Alternative.Id), Num(e.Value()), Strs(e.BetterThanOrSameAs))
-	}
-	return out
-}
-
-func genValueList(r *Rng, maxN int) ([]string, []float64) {
-	n := r.rangeInt(1, maxN)
-	names := r.shuffled(ids("a", n))
-	vals := make([]float64, n)
-	mode := r.Intn(10)
-	base := r.value()
-	for i := range vals {
-		switch {
-		case mode == 0: // all equal
-			vals[i] = base
-		case mode <= 3: // few distinct levels
-			vals[i] = float64(r.Intn(3))
-		case mode == 4: // coincide only after 1e-8 rounding
-			vals[i] = base + float64(r.Intn(3)-1)*2e-9
-		default:
-			vals[i] = r.value()
-		}
-	}
-	return names, vals
-}
 
 func init() {
 	props["C04"] = func(o *Out, r *Rng, n int, thorough bool) {
@@ -95,50 +57,4 @@ func init() {
 			o.Oracle(m, ok, clause)
 		}
 	}
-}
-
-func rankingJSON(rk *model.AlternativesRanking) interface{} {
-	out := []interface{}{}
-	for _, e := range *rk {
-		out = append(out, map[string]interface{}{"id": e.Alternative.Id, "evaluation": e.Evaluation, "betterThanOrSameAs": e.BetterThanOrSameAs})
-	}
-	return out
-}
-
-func sameRanking(a, b *model.AlternativesRanking) (bool, string) {
-	if len(*a) != len(*b) {
-		return false, "length differs under permutation"
-	}
-	for i := range *a {
-		x, y := (*a)[i], (*b)[i]
-		if x.Alternative.Id != y.Alternative.Id {
-			return false, "order differs under permutation at " + itoa(i)
-		}
-		if x.Value() != y.Value() {
-			return false, "value differs under permutation for " + x.Alternative.Id
-		}
-		if !sameSet(x.BetterThanOrSameAs, y.BetterThanOrSameAs) {
-			return false, "links differ under permutation for " + x.Alternative.Id
-		}
-	}
-	return true, ""
-}
-
-func sameSet(a, b []string) bool {
-	if len(a) != len(b) {
-		return false
-	}
-	m := map[string]int{}
-	for _, x := range a {
-		m[x]++
-	}
-	for _, x := range b {
-		m[x]--
-	}
-	for _, v := range m {
-		if v != 0 {
-			return false
-		}
-	}
-	return true
 }
